@@ -40,7 +40,7 @@ man = {
     ],
     "checks": checks,
     "not_applicable": na,
-    "notes": "Technique family: static analysis only. Every check re-extracts facts from /repo's current working tree (hash-keyed cache under .facts/), reports a named construct, and prints KNOWN-FINDING lines for defects listed in known_findings.json. Before rules run the fact base is normalised: renamed functions and fields get their reference names back, functions that do not exist on the reference tree (lyverif/pinned_fns.json) are inlined into their direct callers, so an extracted helper is judged in the context of the functions the rules were confirmed against (DESIGN.md 1.1, 7.1). An obligation a rule cannot analyse fails closed. Robustness corpora: seeded/ (177 breaking changes from independent sub-agents in four rounds - small bugs, refactoring-shaped and optimisation-shaped breaks - all but one caught) and refactors/ (170 behaviour-preserving refactorings, renames, moves and correct twins of seeds, none alarms; one further twin is a documented limit under refactors_known_limits/); tools/seedregress.py and tools/refregress.py re-run them.",
+    "notes": "Technique family: static analysis only. Every check re-extracts facts from /repo's current working tree (hash-keyed cache under .facts/), reports a named construct, and prints KNOWN-FINDING lines for defects listed in known_findings.json. Before rules run the fact base is normalised: renamed functions and fields get their reference names back, functions that do not exist on the reference tree (lyverif/pinned_fns.json) are inlined into their direct callers, so an extracted helper is judged in the context of the functions the rules were confirmed against (DESIGN.md 1.1, 7.1). An obligation a rule cannot analyse fails closed. Robustness corpora: seeded/ (177 breaking changes from independent sub-agents in four rounds - small bugs, refactoring-shaped and optimisation-shaped breaks - all but one caught) and refactors/ (171 behaviour-preserving refactorings, renames, moves and correct twins of seeds, none alarms; one further twin is a documented limit under refactors_known_limits/); tools/seedregress.py and tools/refregress.py re-run them.",
 }
 json.dump(man, open(os.path.join(V, "MANIFEST.json"), "w"), indent=1)
 print("checks:", [c["property_id"] for c in checks], "na:", len(na))
